@@ -478,11 +478,9 @@ Definition tp_name (n : pstr) := S "_tp_" ++ n.
 Definition parser_name (n : pstr) := S "_parser_" ++ n.
 Definition edflt_name (n : pstr) := S "_dflt_" ++ n.
 
-(* the variable name is spliced into an f-string with BARE double quotes and into a
-   repr; the bare part only transports `bare_safe` text (F21) *)
+(* the variable name is spliced with repr, into  "%s%s" % (_env_prefix, <name!r>)  and <name!r> *)
 Definition env_var_text (f : env_field) : pstr :=
   match ef_var f with Some v => v | None => ef_name f end.
-Definition env_splice_ok (sh : env_shape) : bool := forallb (fun f => bare_safe (env_var_text f)) (e_fields sh).
 
 Definition env_field_stmt (f : env_field) : stmt :=
   let n := ef_name f in
@@ -490,7 +488,7 @@ Definition env_field_stmt (f : env_field) : stmt :=
   let lookup := match ef_var f with Some _ => N_ "lookup_exact" | None => N_ "get_env" end in
   sseq [ SAssign [S "_name"] ENil (EStr n);
          SAssign [S "_env_var"] ENil (match ef_var f with Some v => EStr v | None => ENil end);
-         SAssign [S "_var_name"] ENil (eapps [N_ "_env_prefix"; EStr vt; N_ "_env_prefix"; EStr vt]);
+         SAssign [S "_var_name"] ENil (eapps [EStr (S "%s%s"); N_ "_env_prefix"; EStr vt; N_ "_env_prefix"; EStr vt]);
          SIf (eapps [EName n; N_ "MISSING"; EWalrus n (call lookup [N_ "_var_name"]); N_ "MISSING"])
              (SAssign [] (EAttr (N_ "self") n) (call (EName (parser_name n)) [EName n]))
              (match ef_default f with
@@ -542,16 +540,13 @@ Definition env_init_header (sh : env_shape) : expr :=
          ++ flat_map (fun f => [EName (tp_name (ef_name f)); N_ "MISSING"]) (e_fields sh)
          ++ [EName (ret_type_name (S "__init__"))]).
 
-(* None: the generated text is not guaranteed to be the intended program (F21) *)
-Definition env_init_fn (sh : env_shape) : option fn :=
-  if env_splice_ok sh then
-    Some {| fn_name := S "__init__";
-            fn_params := env_fixed_params ++ map ef_name (e_fields sh);
-            fn_header := env_init_header sh;
-            fn_body := env_init_body sh;
-            fn_closure := env_closure sh;
-            fn_globals := env_globals sh |}
-  else None.
+Definition env_init_fn (sh : env_shape) : fn :=
+  {| fn_name := S "__init__";
+     fn_params := env_fixed_params ++ map ef_name (e_fields sh);
+     fn_header := env_init_header sh;
+     fn_body := env_init_body sh;
+     fn_closure := env_closure sh;
+     fn_globals := env_globals sh |}.
 
 Definition env_dict_fn (sh : env_shape) : fn :=
   {| fn_name := S "dict"; fn_params := [S "self"];
@@ -802,5 +797,3 @@ Definition show_fn (batch : list pstr) (f : fn) : pstr :=
                 show_list (e_loads (fn_header f)); show_list (s_strs (fn_body f) ++ e_strs (fn_header f));
                 show_list (s_attrs (fn_body f));
                 if closedb batch f then S "closed" else S "OPEN"].
-Definition show_fn_opt (batch : list pstr) (f : option fn) : pstr :=
-  match f with Some g => show_fn batch g | None => S "NONE" end.
